@@ -1,36 +1,475 @@
 package c05
 
 import (
+	"math"
+	"math/big"
+	"strings"
+
 	"verif/harness/core"
+	"verif/harness/numref"
 )
 
-// Input neighbourhoods left out of random generation while the corresponding finding is listed in
-// /verif/known-findings.d/ (DESIGN section 5). The pinned witness of every finding still runs in every tier.
-// VERIF_NO_EXCLUDE=1 lifts all exclusions (used to confirm proposed patches against a patched worktree).
+// Input neighbourhoods left out of random generation (and battery fields not judged) while the corresponding finding is
+// listed in /verif/known-findings.d/ (DESIGN section 5). The pinned witness of every finding still runs in every tier and
+// is printed as KNOWN-FINDING while it fails; once the entry is removed (fix merged) the neighbourhood is generated again.
+// VERIF_NO_EXCLUDE=1 lifts everything (used to confirm the proposed patches against a patched worktree).
+
+const two63 = 9223372036854775808.0
+
+func hugeFinite(v float64) bool { return numref.IsFinite(v) && math.Abs(v) >= two63 }
+
+// denormalRisk: subnormals other than ±MIN_VALUE (ftoa's bignum path hangs / mis-estimates for them).
+func denormalRisk(v float64) bool {
+	b := math.Float64bits(v) &^ (1 << 63)
+	return b > 1 && b < 1<<52
+}
+
+func nonASCII(s string) bool {
+	for i := 0; i < len(s); i++ {
+		if s[i] >= 0x80 {
+			return true
+		}
+	}
+	return false
+}
+
+func opVal(n *node) (float64, bool) { return n.evalOperand() }
+
+func isSafeIntVal(v float64) bool {
+	return numref.IsFinite(v) && numref.IsInteger(v) && math.Abs(v) <= 9007199254740992 && !numref.IsNegZero(v)
+}
+
+var twoP53p1 = new(big.Int).Add(new(big.Int).Lsh(big.NewInt(1), 53), big.NewInt(1))
+
+func isPlusMinus2p53p1(z *big.Int) bool { return new(big.Int).Abs(z).Cmp(twoP53p1) == 0 }
+
+// literalExactInt returns the exact integer a literal text denotes (ok=false if it has a fraction/exponent).
+func literalExactInt(l string) (*big.Int, bool) {
+	l = strings.ReplaceAll(l, "_", "")
+	z, ok := new(big.Int).SetString(l, 0)
+	if ok && len(l) > 1 && l[0] == '0' && l[1] >= '0' && l[1] <= '9' {
+		return nil, false
+	}
+	return z, ok
+}
+
 type treeExclusion struct {
-	id string
-	in func(n *node) bool // true if the tree contains the excluded construct
+	id   string
+	what string
+	in   func(n *node) bool // n is any node of the tree
 }
 
-type inputExclusion struct {
-	id string
-	in func(c cinput, op string) bool // op == "" asks about the input as a whole
+func bitwiseOp(op string) bool {
+	switch op {
+	case "&", "|", "^", "<<", ">>", ">>>":
+		return true
+	}
+	return false
 }
 
-var treeExclusions = []treeExclusion{}
-var inputExclusions = []inputExclusion{}
+var treeExclusions = []treeExclusion{
+	{id: "C05-incdec-noncanonical", what: "++/-- whose result is an integer within ±2^53 while the operand is not a plain integer Number (−0, a non-integral or tiny float, a numeric string, an object wrapper)", in: func(n *node) bool {
+		if n.Op != "upd" {
+			return false
+		}
+		k := n.Kids[0]
+		v, ok := opVal(k)
+		if !ok {
+			return false
+		}
+		r := numref.Add(v, 1)
+		if n.Lit == "--" {
+			r = numref.Sub(v, 1)
+		}
+		if !(numref.IsFinite(r) && numref.IsInteger(r) && math.Abs(r) <= 9007199254740992) {
+			return false
+		}
+		return k.Op == "str" || k.Op == "wrap" || !isSafeIntVal(v)
+	}},
+	{id: "C05-neg-noncanonical", what: "unary minus applied to -0", in: func(n *node) bool {
+		if n.Op != "un" || n.Lit != "neg" {
+			return false
+		}
+		v, ok := opVal(n.Kids[0])
+		return ok && numref.IsNegZero(v)
+	}},
+	{id: "C05-int-2p53plus1", what: "integer producers of exactly ±(2^53+1): literals, Go integers, and + - * ++ -- on integers within ±2^53", in: func(n *node) bool {
+		switch n.Op {
+		case "lit":
+			z, ok := literalExactInt(n.Lit)
+			return ok && isPlusMinus2p53p1(z)
+		case "str":
+			return strExact2p53p1(n.Lit)
+		case "conv":
+			if strings.HasSuffix(n.Lit, "parseInt") {
+				if u, ok := n.Kids[0].stringOperand(); ok {
+					if z := numref.ParseIntExact(u, int32(max(n.A, 0))); z != nil && isPlusMinus2p53p1(z) {
+						return true
+					}
+				}
+			}
+			return false
+		case "go":
+			switch n.Go.Kind {
+			case "float32", "float64":
+				return false
+			case "int", "int8", "int16", "int32", "int64":
+				return isPlusMinus2p53p1(big.NewInt(n.Go.I))
+			}
+			return isPlusMinus2p53p1(new(big.Int).SetUint64(n.Go.U))
+		case "bin", "cmp", "upd":
+			var a, b float64
+			var ok bool
+			op := n.Lit
+			if a, ok = opVal(n.Kids[0]); !ok {
+				return false
+			}
+			if n.Op == "upd" {
+				b = 1
+				op = map[string]string{"++": "+", "--": "-"}[n.Lit]
+			} else if b, ok = opVal(n.Kids[1]); !ok {
+				return false
+			}
+			if !isSafeIntVal(a) || !isSafeIntVal(b) {
+				return false
+			}
+			x, y := numref.TruncInt(a), numref.TruncInt(b)
+			switch op {
+			case "+":
+				return isPlusMinus2p53p1(new(big.Int).Add(x, y))
+			case "-":
+				return isPlusMinus2p53p1(new(big.Int).Sub(x, y))
+			case "*":
+				return isPlusMinus2p53p1(new(big.Int).Mul(x, y))
+			}
+		}
+		return false
+	}},
+	{id: "C05-toint-wrap-2p63", what: "ToInt32/ToUint32/ToInt8… users (bitwise and shift operators, ~, Math.imul/clz32, integer typed-array and DataView stores) applied to a finite |value| >= 2^63", in: func(n *node) bool {
+		uses := false
+		switch n.Op {
+		case "bin", "cmp":
+			uses = bitwiseOp(n.Lit)
+		case "un":
+			uses = n.Lit == "bitnot"
+		case "math":
+			uses = n.Lit == "imul" || n.Lit == "clz32"
+		case "ta", "dv":
+			uses = n.A <= 6
+		}
+		if !uses {
+			return false
+		}
+		for _, k := range n.Kids {
+			if v, ok := opVal(k); ok && hugeFinite(v) {
+				return true
+			}
+		}
+		return false
+	}},
+	{id: "C05-unicode-string-tofloat", what: "numeric strings containing non-ASCII white space as operands of anything but Number()/parseInt/parseFloat and the binary operators", in: func(n *node) bool {
+		if n.Op == "conv" || n.Op == "bin" || n.Op == "cmp" {
+			return false
+		}
+		for _, k := range n.Kids {
+			if k.Op == "str" && nonASCII(k.Lit) {
+				return true
+			}
+		}
+		return false
+	}},
+	{id: "C05-math-sign-returns-arg", what: "Math.sign of a string / object operand", in: func(n *node) bool {
+		return n.Op == "math" && n.Lit == "sign" && (n.Kids[0].Op == "str" || n.Kids[0].Op == "wrap")
+	}},
+	{id: "C05-mul-negzero", what: "integer * integer with one factor +0 and the other negative", in: func(n *node) bool {
+		if (n.Op != "bin" && n.Op != "cmp") || n.Lit != "*" {
+			return false
+		}
+		a, ok1 := opVal(n.Kids[0])
+		b, ok2 := opVal(n.Kids[1])
+		if !ok1 || !ok2 || !isSafeIntVal(a) || !isSafeIntVal(b) {
+			return false
+		}
+		return (a == 0 && b < 0) || (b == 0 && a < 0)
+	}},
+	{id: "C05-number-of-bigint", what: "Number(bigint) for BigUint64 values >= 2^63", in: func(n *node) bool {
+		if (n.Op != "ta" && n.Op != "dv") || elemTypes[n.A] != "BigUint64" {
+			return false
+		}
+		v, ok := n.eval()
+		return ok && v >= two63
+	}},
+	{id: "C05-bigint64array-fill-sign", what: "BigInt64Array.prototype.fill with a negative value", in: func(n *node) bool {
+		if n.Op != "ta" || elemTypes[n.A] != "BigInt64" || n.B != 2 {
+			return false
+		}
+		v, ok := n.eval()
+		return ok && v < 0
+	}},
+	{id: "C12-long-nondecimal-literal", what: "0x/0o/0b literals needing more than 63 bits", in: func(n *node) bool {
+		if n.Op != "lit" || len(n.Lit) < 3 || n.Lit[0] != '0' || !strings.ContainsRune("xXoObB", rune(n.Lit[1])) {
+			return false
+		}
+		z, ok := literalExactInt(n.Lit)
+		return ok && z.BitLen() > 63
+	}},
+	{id: "C12-long-nondecimal-string", what: "0x/0o/0b numeric strings needing more than 63 bits", in: func(n *node) bool {
+		if n.Op != "str" {
+			return false
+		}
+		return longNonDecimal(n.Lit)
+	}},
+	{id: "C12-number-nel-whitespace", what: "strings containing U+0085", in: func(n *node) bool {
+		return n.Op == "str" && strings.Contains(n.Lit, "\u0085")
+	}},
+	{id: "C12-number-neg-zeros", what: "strings '-00…'", in: func(n *node) bool { return n.Op == "str" && negZeros(n.Lit) }},
+	{id: "C12-parseint-neg-zero", what: "parseInt of '-0…'", in: func(n *node) bool {
+		if n.Op != "conv" || !strings.HasSuffix(n.Lit, "parseInt") {
+			return false
+		}
+		u, ok := n.Kids[0].stringOperand()
+		if !ok {
+			return false
+		}
+		res := numref.ParseInt(u, int32(max(n.A, 0)))
+		return numref.IsNegZero(res.Value)
+	}},
+	{id: "C12-parseint-large-imprecise", what: "parseInt results of 2^57 or more", in: func(n *node) bool {
+		if n.Op != "conv" || !strings.HasSuffix(n.Lit, "parseInt") {
+			return false
+		}
+		v, ok := n.eval()
+		return ok && numref.IsFinite(v) && math.Abs(v) >= 144115188075855872
+	}},
+	{id: "C12-ftoa-denormal", what: "trees whose value is a subnormal below 2^-1042 other than ±MIN_VALUE (String/toFixed of it may not terminate)", in: func(n *node) bool {
+		v, ok := n.eval()
+		return ok && denormalRisk(v)
+	}},
+}
+
+// strExact2p53p1: the string, as a StringNumericLiteral, denotes exactly the integer ±(2^53+1)
+func strExact2p53p1(s string) bool {
+	t := strings.TrimFunc(s, func(r rune) bool { return r < 0x10000 && numref.IsStrWhiteSpace(uint16(r)) })
+	if nonASCII(t) || t == "" {
+		return false
+	}
+	body := strings.TrimLeft(t, "+-")
+	if len(t)-len(body) > 1 {
+		return false
+	}
+	z, ok := new(big.Int).SetString(strings.ToLower(body), 0)
+	if !ok || strings.Contains(body, "_") || (len(body) > 1 && body[0] == '0' && body[1] >= '0' && body[1] <= '9') {
+		z, ok = new(big.Int).SetString(strings.TrimLeft(body, "0"), 10)
+		if !ok {
+			return false
+		}
+	}
+	return isPlusMinus2p53p1(z)
+}
+
+func longNonDecimal(s string) bool {
+	u := numref.Units(s)
+	i, j := 0, len(u)
+	for i < j && numref.IsStrWhiteSpace(u[i]) {
+		i++
+	}
+	for j > i && numref.IsStrWhiteSpace(u[j-1]) {
+		j--
+	}
+	var b strings.Builder
+	for _, c := range u[i:j] {
+		if c >= 0x80 {
+			return false
+		}
+		b.WriteByte(byte(c))
+	}
+	t := b.String()
+	if len(t) < 3 || t[0] != '0' || !strings.ContainsRune("xXoObB", rune(t[1])) {
+		return false
+	}
+	z, ok := new(big.Int).SetString(strings.ToLower(t), 0)
+	return ok && z.BitLen() > 63
+}
+
+func negZeros(s string) bool {
+	u := numref.Units(s)
+	i, j := 0, len(u)
+	for i < j && numref.IsStrWhiteSpace(u[i]) {
+		i++
+	}
+	for j > i && numref.IsStrWhiteSpace(u[j-1]) {
+		j--
+	}
+	if j-i < 3 || u[i] != '-' {
+		return false
+	}
+	for _, c := range u[i+1 : j] {
+		if c != '0' {
+			return false
+		}
+	}
+	return true
+}
 
 func excludedTree(st *core.Stats, n *node) bool {
 	if noExclude {
 		return false
 	}
-	for _, e := range treeExclusions {
-		if listed[e.id] && e.in(n) {
-			st.Inc("excluded:" + e.id)
+	hit := ""
+	n.walk(func(k *node) {
+		if hit != "" {
+			return
+		}
+		for _, e := range treeExclusions {
+			if listedBase[e.id] && e.in(k) {
+				hit = e.id
+				return
+			}
+		}
+	})
+	if hit != "" {
+		st.Inc("excluded:" + hit)
+		return true
+	}
+	return false
+}
+
+// excludedNeighbour: neighbour values that must not be produced while a finding is listed.
+func excludedValue(v float64) bool {
+	if noExclude {
+		return false
+	}
+	return listedBase["C12-ftoa-denormal"] && denormalRisk(v)
+}
+
+// ---- battery fields not judged while a finding is listed ---------------------------------------------------------------
+
+// on(id): the finding is listed and is not the one the current pinned witness is about
+func on(id string) bool { return listedBase[id] && pinFinding != id }
+
+func skipUnaryField(cr *caseRun, i int, v float64) bool {
+	if noExclude {
+		return false
+	}
+	skip := ""
+	switch {
+	case i >= 18 && i <= 22 && hugeFinite(v) && on("C05-toint-wrap-2p63"):
+		skip = "C05-toint-wrap-2p63" // a|0, a>>>0, ~~a, a>>0, a<<0 of |a| >= 2^63
+	case (i == 41 || i == 42) && v < 0 && on("C12-precision-negative-rollover"):
+		// a.toPrecision(3) / a.toExponential(1) of a negative value whose digits all carry
+		var m string
+		if i == 41 {
+			m, _ = numref.ToExponential(v, 2)
+		} else {
+			m, _ = numref.ToExponential(v, 1)
+		}
+		m, _, _ = strings.Cut(strings.TrimPrefix(m, "-"), "e")
+		m = strings.Replace(m, ".", "", 1)
+		if strings.HasPrefix(m, "1") && strings.Trim(m[1:], "0") == "" {
+			skip = "C12-precision-negative-rollover"
+		}
+	}
+	if skip != "" {
+		cr.inc("battery_field_skipped:" + skip)
+		return true
+	}
+	return false
+}
+
+func skipPairField(cr *caseRun, i int, a, b float64) bool {
+	if noExclude {
+		return false
+	}
+	// [−0].includes(+0): obs 15 is [a].includes(b), obs 16 is [b].includes(a)
+	if on("C05-array-includes-negzero") {
+		if (i == 15 && numref.IsNegZero(a) && numref.SameValue(b, 0)) || (i == 16 && numref.IsNegZero(b) && numref.SameValue(a, 0)) {
+			cr.inc("battery_field_skipped:C05-array-includes-negzero")
 			return true
 		}
 	}
 	return false
+}
+
+// ---- conversion inputs -----------------------------------------------------------------------------------------------
+
+type inputExclusion struct {
+	id   string
+	what string
+	in   func(c cinput, op string) bool // op == "" asks about the input as a whole
+}
+
+// operations that reach the value through Value.ToFloat()/ToInteger() instead of ToNumber()
+func viaToFloatOrInteger(op string) bool {
+	switch op {
+	case "Number(x)", "+x", "x*1", "x-0", "x/1", "x|0", "x>>0", "~~x", "x<<0", "x&-1", "x^0", "x>>>0", "1<<x", "-1>>>x", "parseFloat(x)", "parseInt(x)", "parseInt(x,16)",
+		"Number.isInteger(x)", "Number.isSafeInteger(x)", "typedarray[x]", "array[x]":
+		return false
+	}
+	return true
+}
+
+var inputExclusions = []inputExclusion{
+	{id: "C05-unicode-string-tofloat", what: "strings with non-ASCII characters through operations that use ToFloat/ToInteger internally", in: func(c cinput, op string) bool {
+		return op != "" && c.IsStr && nonASCII(c.S) && viaToFloatOrInteger(op)
+	}},
+	{id: "C05-string-tointeger-overflow", what: "numeric strings of magnitude >= 2^63 and the string 'NaN' (any case) through ToIntegerOrInfinity / ToLength / ToIndex users", in: func(c cinput, op string) bool {
+		if op == "" || !c.IsStr {
+			return false
+		}
+		n := c.num()
+		t := strings.ToLower(strings.TrimLeft(strings.TrimSpace(c.S), "+-"))
+		return (hugeFinite(n) || numref.IsInf(n) || t == "nan") && viaToFloatOrInteger(op)
+	}},
+	{id: "C05-toint-wrap-2p63", what: "finite |value| >= 2^63 through ToInt32/ToUint32/ToInt8…/ToUint16 users", in: func(c cinput, op string) bool {
+		if op == "" || !hugeFinite(c.num()) {
+			return false
+		}
+		switch op {
+		case "x|0", "x>>0", "~~x", "x<<0", "x&-1", "x^0", "x>>>0", "1<<x", "-1>>>x", "Math.clz32(x)", "Math.imul(x,1)", "String.fromCharCode(x)", "DataView.setInt16/getInt16", "DataView.setUint32/getUint32 LE", "Uint8Array.fill(x)", "Int32Array element store":
+			return true
+		}
+		return strings.HasPrefix(op, "new ") && strings.HasSuffix(op, "Array([x])[0]") && !strings.Contains(op, "Float") && !strings.Contains(op, "Clamped")
+	}},
+	{id: "C05-neg-noncanonical", what: "-(-x) where ToNumber(x) is ±0", in: func(c cinput, op string) bool {
+		return op == "-(-x)" && numref.IsZero(c.num())
+	}},
+	{id: "C05-math-sign-returns-arg", what: "Math.sign of a string", in: func(c cinput, op string) bool { return op == "Math.sign(x)" && c.IsStr }},
+	{id: "C12-long-nondecimal-string", what: "0x/0o/0b strings needing more than 63 bits", in: func(c cinput, op string) bool {
+		return op == "" && c.IsStr && longNonDecimal(c.S)
+	}},
+	{id: "C12-number-prefix-sign", what: "sign after a radix prefix", in: func(c cinput, op string) bool {
+		if op != "" || !c.IsStr {
+			return false
+		}
+		t := strings.TrimSpace(c.S)
+		return len(t) > 2 && t[0] == '0' && strings.ContainsRune("xXoObB", rune(t[1])) && (t[2] == '+' || t[2] == '-')
+	}},
+	{id: "C12-number-nel-whitespace", what: "strings containing U+0085", in: func(c cinput, op string) bool {
+		return op == "" && c.IsStr && strings.Contains(c.S, "\u0085")
+	}},
+	{id: "C12-number-neg-zeros", what: "'-00…'", in: func(c cinput, op string) bool { return op == "" && c.IsStr && negZeros(c.S) }},
+	{id: "C12-parseint-neg-zero", what: "parseInt giving -0", in: func(c cinput, op string) bool {
+		if !strings.HasPrefix(op, "parseInt") {
+			return false
+		}
+		R := int32(0)
+		if op == "parseInt(x,16)" {
+			R = 16
+		}
+		return numref.IsNegZero(numref.ParseInt(c.units(), R).Value)
+	}},
+	{id: "C12-parseint-large-imprecise", what: "parseInt results of 2^57 or more", in: func(c cinput, op string) bool {
+		if !strings.HasPrefix(op, "parseInt") {
+			return false
+		}
+		R := int32(0)
+		if op == "parseInt(x,16)" {
+			R = 16
+		}
+		v := numref.ParseInt(c.units(), R).Value
+		return numref.IsFinite(v) && math.Abs(v) >= 144115188075855872
+	}},
+	{id: "C12-precision-negative-rollover", what: "(conversion ops do not format negative values)", in: func(c cinput, op string) bool { return false }},
 }
 
 func excludedInput(st *core.Stats, c cinput) bool {
@@ -38,7 +477,7 @@ func excludedInput(st *core.Stats, c cinput) bool {
 		return false
 	}
 	for _, e := range inputExclusions {
-		if listed[e.id] && e.in(c, "") {
+		if listedBase[e.id] && e.in(c, "") {
 			st.Inc("excluded:" + e.id)
 			return true
 		}
@@ -51,7 +490,7 @@ func excludedConv(st *core.Stats, c cinput, op string) bool {
 		return false
 	}
 	for _, e := range inputExclusions {
-		if listed[e.id] && e.in(c, op) {
+		if listedBase[e.id] && e.in(c, op) {
 			st.Inc("excluded:" + e.id)
 			return true
 		}
